@@ -179,15 +179,22 @@ void *sim_mmap(void *addr, size_t len, int prot, int flags, int fd, off_t off) {
   int k = ++m.fallible_seen[t];
   bool huge = (flags & MAP_HUGETLB) != 0;
   bool inj = fault_due(m, t, k);
-  bool envfail = !inj && huge && !m.env.hugetlb_ok;
+  // the simulated machine has no room for mappings of a terabyte and more (the real one refuses them as well):
+  // a deterministic environment refusal, so that absurd memory parameters are cheap, legal workload
+  bool toobig = len >= (1ull << 40);
+  bool envfail = !inj && ((huge && !m.env.hugetlb_ok) || toobig);
   MemReq rq{RQ_MMAP, len, huge, inj || envfail, inj, k};
   log_req(m, t, rq);
-  if (envfail) m.stats["hugetlb_refused_by_env"]++;
+  if (envfail && toobig) m.stats["mmap_refused_too_big"]++;
+  else if (envfail) m.stats["hugetlb_refused_by_env"]++;
   if (huge && !inj && !envfail) m.stats["hugetlb_granted"]++;
   if (inj || envfail) { errno = ENOMEM; return MAP_FAILED; }
   int rflags = flags & ~(MAP_HUGETLB | (0x3f << MAP_HUGE_SHIFT));
   void *p = mmap(addr, len, prot, rflags, fd, off);
-  if (p == MAP_FAILED) crash_exit("machinery", "real mmap failed");
+  if (p == MAP_FAILED) {
+    if (len >= (1ull << 32)) { m.op_reqs[t].back().failed = true; m.stats["mmap_refused_by_host"]++; ev("mem host refused a large mapping"); errno = ENOMEM; return MAP_FAILED; }
+    crash_exit("machinery", "real mmap failed");
+  }
   Block b{len, t, cur_op(t), true, false, false, ++m.serial};
   m.live[(uintptr_t)p] = b;
   thr::region_add(p, len, t, "lib-mmap");
